@@ -179,6 +179,25 @@ func (t *c51Type) hasZeroArray() bool {
 	return false
 }
 
+// hasZeroSizeStatic reports whether the type contains a static component whose
+// encoding is empty (T[0] with static T, and arrays/tuples made only of such).
+func (t *c51Type) hasZeroSizeStatic() bool {
+	if !t.dynamic() && t.staticLen() == 0 {
+		return true
+	}
+	switch t.kind {
+	case c51Array, c51Slice:
+		return t.elem.hasZeroSizeStatic()
+	case c51Tuple:
+		for _, c := range t.comps {
+			if c.hasZeroSizeStatic() {
+				return true
+			}
+		}
+	}
+	return false
+}
+
 func (t *c51Type) depth() int {
 	switch t.kind {
 	case c51Array, c51Slice:
